@@ -17,12 +17,6 @@ def nameLike (s : String) : Bool :=
   | c :: _ => Lex.isNameStart c
   | [] => false
 
-/-- a NUMBER token that Python cannot convert: `int()` raises `ValueError` on it -/
-def badNum (t : Tok) : Prop := t.ty = .number ∧ cvalOfNum (parseNumber t.content) = none
-
-/-- the only exception the model knows: `ValueError`, and only with such a token pending -/
-def RaisedOk (st : St) (k : String) : Prop := k = "ValueError" ∧ ∃ tok ∈ st.toks, badNum tok
-
 /-- what the lexer guarantees about a token, as far as the parser's behaviour depends on it -/
 def tokOk (t : Tok) : Bool :=
   match t.ty with
@@ -30,6 +24,7 @@ def tokOk (t : Tok) : Bool :=
   | .and_ | .or_ | .compare => t.content != "not"
   | .name => nameLike t.content
   | .timePattern => !nameLike t.content
+  | .number => !nameLike t.content
   | _ => true
 
 structure Inv (st : St) : Prop where
@@ -56,7 +51,7 @@ structure FailPost (st st' : St) : Prop where
 def Res.Good (t : Bool) (st : St) : Res α → Prop
   | .ok _ st' => OkPost st st'
   | .fail st' => FailPost st st'
-  | .raised k _ => RaisedOk st k
+  | .raised _ _ => False
   | .oof => t = false
 
 /-- the specification of a parsing routine: from a state satisfying the invariant it either
@@ -93,7 +88,7 @@ theorem Res.Good.after {a b : St} (h1 : OkPost a b) {r : Res α} (h2 : r.Good t 
   cases r with
   | ok x s => exact h1.trans h2
   | fail s => exact FailPost.after h1 h2
-  | raised k s => exact ⟨h2.1, h2.2.choose, h1.suffix.subset h2.2.choose_spec.1, h2.2.choose_spec.2⟩
+  | raised k s => exact h2
   | oof => exact h2
 
 /-! ## Running a `do` block -/
@@ -151,7 +146,7 @@ structure OkPostX (st st' : St) : Prop where
 def Res.GoodX (t : Bool) (st : St) (sh : List Bool) : Res α → Prop
   | .ok _ st' => OkPostX st st' ∧ shape st'.loops = sh
   | .fail st' => FailPost st st'
-  | .raised k _ => RaisedOk st k
+  | .raised _ _ => False
   | .oof => t = false
 
 theorem Res.Good.toX {st : St} {r : Res α} (h : r.Good t st) : r.GoodX t st (shape st.loops) := by
@@ -179,7 +174,7 @@ theorem Res.GoodX.after {a b : St} (h1 : OkPostX a b) {r : Res α} {sh : List Bo
     refine ⟨h2.suffix.trans h1.suffix, ?_⟩
     obtain ⟨new, hne, he, hl⟩ := h2.errors
     exact ⟨new, hne, by rw [he, h1.errors], fun e he' => lineOf_mono h1.suffix (hl e he')⟩
-  | raised k s => exact ⟨h2.1, h2.2.choose, h1.suffix.subset h2.2.choose_spec.1, h2.2.choose_spec.2⟩
+  | raised k s => exact h2
   | oof => exact h2
 
 theorem goodX_bind {m : M α} {f : α → M β} {st : St} {sh1 sh2 : List Bool}
